@@ -48,7 +48,7 @@ pub fn profile(prop: u32) -> Prof {
         early_drop: 1,
         fe_zero: false,
         settle: 2,
-        huge: 0,
+        huge: 1,
     };
     match prop {
         1 => Prof {
@@ -701,11 +701,15 @@ fn head_stall_shape(subj: Subj, prof: &Prof) -> BoxedStrategy<Case> {
 /// capacities / limits above 1024 (and around 2048, 4096) with that many children really in flight
 fn huge_shape(subj: Subj, _prof: &Prof) -> BoxedStrategy<Case> {
     (
-        prop_oneof![4 => 1025usize..1200, 1 => 2049usize..2120, 1 => 4097usize..4140],
+        // populations above the sizes a narrow integer or a fixed-size bitmask can hold: 2^10, 2^11, 2^12 and -
+        // rarely, joins only (the one subject that takes any number of inputs in a single call) - 2^16
+        prop_oneof![16 => 1025usize..1200, 4 => 2049usize..2120, 4 => 4097usize..4140, 1 => 65537usize..65600],
         waker_idx(),
-        0usize..80,
+        (0usize..80, prop_oneof![1 => Just(0usize), 1 => 1usize..4], prop::bool::ANY),
     )
-        .prop_map(move |(limit, wk, extra)| {
+        .prop_map(move |(limit, wk, (extra, small_cap, poll_between))| {
+            let giant = limit > 60000;
+            let limit = if giant && !subj.is_join() { 1025 + limit % 100 } else { limit };
             let pending = Plan {
                 stash: 1,
                 ..Plan::default()
@@ -735,8 +739,18 @@ fn huge_shape(subj: Subj, _prof: &Prof) -> BoxedStrategy<Case> {
                 }
                 Subj::UU | Subj::OU | Subj::MU => {
                     cfg.ctor = 0;
+                    if small_cap > 0 && subj != Subj::MU {
+                        // started tiny: the same population now sits in 9 - 12 live groups instead of 6 - 8
+                        cfg.ctor = 1;
+                        cfg.cap = small_cap;
+                    }
                     for _ in 0..(total / 250 + 1) {
                         ops.push(Op::PushMany(250, pending.clone()));
+                        if poll_between {
+                            // the children pushed so far get their first poll (and their address is on record)
+                            // before the collection grows further
+                            ops.push(Op::Exec(wk, 8));
+                        }
                     }
                 }
                 _ => {
@@ -746,6 +760,10 @@ fn huge_shape(subj: Subj, _prof: &Prof) -> BoxedStrategy<Case> {
             }
             for _ in 0..3 {
                 ops.push(Op::Exec(wk, 250));
+            }
+            if !giant {
+                // everything is held and parked now: the task must be allowed to go to sleep
+                ops.push(Op::Settle);
             }
             for _ in 0..(total / 200 + 2) {
                 ops.push(Op::CompleteMany(0, 255));
